@@ -12,7 +12,7 @@ use serde_json::{json, Value};
 use std::collections::HashSet;
 use std::hash::{Hash, Hasher};
 
-pub const RULE: &str = "cases = hostile strings pushed through Range::parse and Version::parse and, on whatever comes back, every accessor / diagnostic of an error and every operation on values (Display, Debug, Clone, Hash, serde, satisfies, min_version, max/min_satisfying, diff, intersect, difference, allows_all, allows_any; against themselves, each other in both orders, and results fed back to depth 3); strata: XR every string over a 16-character range alphabet up to length 5 (quick) / 7 (thorough), XV every string over the version alphabet up to length 6 / 9, P pair and triple operations over the structurally distinct ranges collected from XR, U random UTF-8 (multi-byte at every position, combining marks, NUL), L long inputs 1 KiB..1 MiB of 17 families, S long lists of distinct alternatives (ascending, descending, middle-out, windows, nested; 300..12000 alternatives) with every operation run on a 256 KiB stack, N near-limit numbers and lengths, F field-built versions with components in {0,1,2^63,2^64-2,2^64-1} each against all the others, T tuple conversions with extreme values (assertions-off shard); built with overflow checks and debug assertions on (and once with them off); events = Panic (first nodejs_semver:: frame), Abort (signal), Timeout (CPU limit), Superlinear (cachegrind instruction counts at n, 2n, 4n), UB report (Miri / memcheck slice); non-trivial = the string parses with at least one parser, or its error is not at offset 0; distinct = distinct strings / operand pairs";
+pub const RULE: &str = "cases = hostile strings pushed through Range::parse and Version::parse and, on whatever comes back, every accessor / diagnostic of an error and every operation on values (Display, Debug, Clone, Hash, serde, satisfies, min_version, max/min_satisfying, diff, intersect, difference, allows_all, allows_any; against themselves, each other in both orders, and results fed back to depth 3); strata: XR every string over a 16-character range alphabet up to length 5 (quick) / 7 (thorough), XV every string over the version alphabet up to length 6 / 9, P pair and triple operations over the structurally distinct ranges collected from XR, U random UTF-8 (multi-byte at every position, combining marks, NUL), L long inputs 1 KiB..1 MiB of 17 families, S long lists of distinct alternatives (ascending, descending, middle-out, windows, nested; 300..30000 alternatives) and SI prerelease identifier lists of 300..40000 identifiers in range bounds and versions, every operation run on a 256 KiB stack; Display/Debug of every value under width / alignment / fill / precision / flag format specifications, N near-limit numbers and lengths, F field-built versions with components in {0,1,2^63,2^64-2,2^64-1} each against all the others, T tuple conversions with extreme values (assertions-off shard); built with overflow checks and debug assertions on (and once with them off); events = Panic (first nodejs_semver:: frame), Abort (signal), Timeout (CPU limit), Superlinear (cachegrind instruction counts at n, 2n, 4n), UB report (Miri / memcheck slice); non-trivial = the string parses with at least one parser, or its error is not at offset 0; distinct = distinct strings / operand pairs";
 
 pub const SIGMA_R: &[char] = &['0', '1', '.', 'x', '*', '-', ' ', '|', '>', '<', '=', '~', '^', 'a', 'v', '+'];
 
@@ -79,9 +79,35 @@ impl Hasher for Sink {
     }
 }
 
+/// Display / Debug under the caller's format specification: width below, at and above the
+/// text's length, every alignment, a fill character, precision, the `0`, `+` and `#` flags
+pub fn fmt_specs<T: std::fmt::Display + std::fmt::Debug>(x: &T) -> usize {
+    let plain = x.to_string();
+    let w = plain.chars().count();
+    let mut n = 0;
+    for width in [0usize, 1, w.saturating_sub(1), w, w + 1, w + 7, 300] {
+        n += format!("{:width$}", x, width = width).len();
+        n += format!("{:<width$}", x, width = width).len();
+        n += format!("{:>width$}", x, width = width).len();
+        n += format!("{:^width$}", x, width = width).len();
+        n += format!("{:*^width$}", x, width = width).len();
+        n += format!("{:é>width$.prec$}", x, width = width, prec = w / 2).len();
+        n += format!("{:0width$}", x, width = width).len();
+        n += format!("{:width$?}", x, width = width).len();
+    }
+    n += format!("{:.0}", x).len() + format!("{:.3}", x).len() + format!("{:+}", x).len() + format!("{:#}", x).len() + format!("{:#?}", x).len() + format!("{:#010}", x).len();
+    n
+}
+
 pub fn exercise_version(ctx: &mut Ctx, v: &Version, src: &str, pool: &Pool) {
     let r = guarded(|| {
         let s = v.to_string();
+        if s.len() < 400 {
+            let _ = fmt_specs(v);
+            for id in v.pre_release.iter().chain(v.build.iter()) {
+                let _ = fmt_specs(id);
+            }
+        }
         let _ = format!("{:?}", v);
         let c = v.clone();
         let mut h = Sink(0);
@@ -92,7 +118,11 @@ pub fn exercise_version(ctx: &mut Ctx, v: &Version, src: &str, pool: &Pool) {
         let _ = serde_json::to_string(v);
         let mut n = 0usize;
         for o in &pool.versions {
-            let _ = v.diff(o);
+            if let Some(d) = v.diff(o) {
+                if n < 4 {
+                    let _ = fmt_specs(&d);
+                }
+            }
             let _ = o.diff(v);
             let _ = v.cmp(o);
             n += 1;
@@ -118,6 +148,10 @@ pub fn exercise_error(ctx: &mut Ctx, e: &nodejs_semver::SemverError, src: &str, 
         let _ = e.location();
         let _ = e.to_string();
         let _ = format!("{:?}", e);
+        if e.input().len() < 400 {
+            let _ = fmt_specs(e);
+            let _ = fmt_specs(e.kind());
+        }
         let _ = e.clone();
         let _ = std::error::Error::source(e).map(|s| s.to_string());
         let _ = e.code().map(|c| c.to_string());
@@ -142,6 +176,9 @@ pub fn exercise_error(ctx: &mut Ctx, e: &nodejs_semver::SemverError, src: &str, 
 pub fn exercise_range(ctx: &mut Ctx, r: &Range, src: &str, pool: &Pool) {
     let res = guarded(|| {
         let s = r.to_string();
+        if s.len() < 400 {
+            let _ = fmt_specs(r);
+        }
         let _ = format!("{:?}", r);
         let c = r.clone();
         let mut h = Sink(0);
@@ -591,7 +628,9 @@ pub fn run(ctx: &mut Ctx) {
     //      the list length ends in a stack-overflow abort, which the orchestrator attributes.
     ctx.stratum("S-long-alternative-lists-on-small-stack", false);
     {
-        let sizes: &[usize] = if quick { &[300, 3000] } else { &[300, 3000, 12000] };
+        // 30 000 alternatives: linear-cost operations only (at optimisation level 2 a recursive
+        // frame can be as small as 16..48 bytes, so 3 000 levels may still fit into 256 KiB)
+        let sizes: &[usize] = if quick { &[300, 3000, 30_000] } else { &[300, 3000, 12_000, 30_000] };
         for fam in LIST_FAMILIES {
             for &n in sizes {
                 if !ctx.take() {
@@ -616,7 +655,10 @@ pub fn run(ctx: &mut Ctx) {
                         let mut k = 0usize;
                         for partner in ["*", ">=1.0.0 <2.0.0 || 3.x", "<1.0.0-0 || >=2.5.0", ">0.0.1 <=900719925474099.0.0"] {
                             let q = Range::parse(partner).unwrap();
-                            k += q.difference(&r).map(|d| d.to_string().len()).unwrap_or(0);
+                            if n <= 12_000 {
+                                // one wide piece minus n holes is quadratic by construction
+                                k += q.difference(&r).map(|d| d.to_string().len()).unwrap_or(0);
+                            }
                             k += r.difference(&q).map(|d| d.to_string().len()).unwrap_or(0);
                             k += q.intersect(&r).map(|d| d.to_string().len()).unwrap_or(0);
                             k += r.intersect(&q).map(|d| d.to_string().len()).unwrap_or(0);
@@ -635,6 +677,56 @@ pub fn run(ctx: &mut Ctx) {
                     Ok(Err(_)) => ctx.inconclusive("small-stack thread ended without a result"),
                     Err(e) => ctx.inconclusive(&format!("cannot spawn small-stack thread: {}", e)),
                 }
+            }
+        }
+    }
+    // ---- SI: long identifier lists (a range bound has no length limit; the fields are public)
+    ctx.stratum("SI-long-identifier-lists-on-small-stack", true);
+    for &n in &[300usize, 3_000, 40_000] {
+        for fam in 0..3usize {
+            if !ctx.take() {
+                continue;
+            }
+            ctx.begin(|| format!("C06 SI identifier list family {} n={}", fam, n));
+            ctx.class(&format!("idlist:{}:{}", fam, n));
+            ctx.eval(1);
+            let ids: String = (0..n).map(|k| match (fam, k % 3) { (0, _) => "a", (1, 0) => "0", (1, _) => "rc", (_, 0) => "-", _ => "7" }).collect::<Vec<_>>().join(".");
+            let h = std::thread::Builder::new().stack_size(256 * 1024).spawn(move || {
+                guarded(|| {
+                    let mut k = 0usize;
+                    for text in [format!(">=1.0.0-{} <2.0.0", ids), format!("<=1.0.0-{}.1 || 1.0.0-{}", ids, ids), format!("1.0.0-{} - 1.0.0-{}.5", ids, ids)] {
+                        let r = match Range::parse(&text) {
+                            Ok(r) => r,
+                            Err(e) => {
+                                k += e.to_string().len() + e.location().0;
+                                continue;
+                            }
+                        };
+                        let shown = r.to_string();
+                        k += Range::parse(&shown).map(|x| (x == r) as usize).unwrap_or(0);
+                        if let Some(m) = r.min_version() {
+                            k += r.satisfies(&m) as usize;
+                            let mut up = m.clone();
+                            up.pre_release.push(nodejs_semver::Identifier::Numeric(0));
+                            k += r.satisfies(&up) as usize + (m < up) as usize + (m == up) as usize;
+                            k += m.diff(&up).map(|d| d.to_string().len()).unwrap_or(0);
+                            k += m.to_string().len();
+                            let mut hs = Sink(0);
+                            m.hash(&mut hs);
+                            let mut v = vec![up.clone(), m.clone(), up.clone()];
+                            v.sort();
+                            k += r.max_satisfying(&v).is_some() as usize;
+                        }
+                        k += r.intersect(&r).is_some() as usize + r.difference(&r).is_none() as usize + r.allows_all(&r) as usize + r.allows_any(&r) as usize;
+                    }
+                    k
+                })
+            });
+            match h.map(|h| h.join()) {
+                Ok(Ok(Ok(_))) => ctx.nontrivial(&format!("idlist:{}:{}", fam, n)),
+                Ok(Ok(Err(p))) => report_panic(ctx, "identifier-list-ops", json!({"family": fam, "identifiers": n}), p),
+                Ok(Err(_)) => ctx.inconclusive("small-stack thread ended without a result"),
+                Err(e) => ctx.inconclusive(&format!("cannot spawn small-stack thread: {}", e)),
             }
         }
     }
